@@ -4,4 +4,4 @@ CONSTANTS
   MaxSeg = 1
   MaxDepth = 2
   Mut = "icase"
-INVARIANTS FirstMatch NoPrefix MatcherAgrees MapThenRoute PoolWhole
+INVARIANTS FirstMatch NoPrefix MatcherAgrees MapThenRoute PoolWhole PoolFirst
